@@ -565,6 +565,8 @@ def run(ctx):
     ctx.guard(r7, ctx, prog)
     ctx.guard(r9, ctx, prog)
     ctx.guard(r10, ctx, prog)
+    ctx.guard(harden.run_narrowing, ctx, prog, 'C13.R11', input_entries(prog),
+              lambda g: g.file.startswith(MODULES + '/terminal/') or g.file.startswith(MODULES + '/util/'), 'terminal input path')
     ctx.guard(harden.run, ctx, prog, 'C13.R8', input_entries(prog),
               lambda g: g.file.startswith(MODULES + '/terminal/') or g.file.startswith(MODULES + '/util/'), 'terminal input path')
     return prog
